@@ -205,7 +205,7 @@ struct Peer {
   alive: bool,
 }
 
-async fn connect_peer(ctx: &rzmq::Context, ty: &str, ep: &str, id: u16, tr: Transport, manual: bool) -> Result<Peer, String> {
+async fn connect_peer(ctx: &rzmq::Context, ty: &str, ep: &str, id: u16, tr: Transport, manual: bool, probe_via: Option<&rzmq::Socket>) -> Result<Peer, String> {
   let s = ctx.socket(stack::stype(ty)).map_err(|e| e.to_string())?;
   stack::set_opts(&s, &[stack::i32opt(opt::SNDTIMEO, 3000), stack::i32opt(opt::LINGER, 500)]).await?;
   if manual {
@@ -218,9 +218,28 @@ async fn connect_peer(ctx: &rzmq::Context, ty: &str, ep: &str, id: u16, tr: Tran
   } else if stack::wait_event(&mon, Duration::from_secs(5), |e| matches!(e, SocketEvent::HandshakeSucceeded { .. })).await.is_none() {
     return Err("no HandshakeSucceeded".into());
   }
-  // PUB: give the subscription time to settle (late-joiner window is not this property's subject)
+  // PUB: the subscription has to reach this publisher before anything it sends counts (the
+  // late-joiner window is not this property's subject). While the receiver is idle this is
+  // established with probe messages; in the middle of a script (receiver possibly inside a
+  // message) a generous pause has to do.
   if ty == "PUB" {
-    tokio::time::sleep(Duration::from_millis(60)).await;
+    match probe_via {
+      Some(rx) => {
+        let mut through = false;
+        for _ in 0..300 {
+          let _ = s.send(Msg::from_static(b"\xF1probe")).await;
+          if let Ok(Ok(_)) = tokio::time::timeout(Duration::from_millis(20), rx.recv()).await {
+            through = true;
+            break;
+          }
+        }
+        if !through {
+          return Err("subscription never reached the publisher".into());
+        }
+        while let Ok(Ok(_)) = tokio::time::timeout(Duration::from_millis(120), rx.recv()).await {}
+      }
+      None => tokio::time::sleep(Duration::from_millis(400)).await,
+    }
   }
   Ok(Peer { sock: s, id, next_seq: 0, alive: true })
 }
@@ -251,7 +270,7 @@ async fn body(c: &Case) -> L2 {
   }
   let mut peers: Vec<Peer> = Vec::new();
   for i in 0..c.n_peers {
-    match connect_peer(&ctx, stype, &ep, i as u16 + 1, c.transport, c.manual_dealers).await {
+    match connect_peer(&ctx, stype, &ep, i as u16 + 1, c.transport, c.manual_dealers, Some(&receiver)).await {
       Ok(p) => peers.push(p),
       Err(e) => return L2::Inconclusive(e),
     }
@@ -344,7 +363,7 @@ async fn body(c: &Case) -> L2 {
       }
       Step::Attach => {
         if peers.len() < 6 {
-          match connect_peer(&ctx, stype, &ep, next_id, c.transport, c.manual_dealers).await {
+          match connect_peer(&ctx, stype, &ep, next_id, c.transport, c.manual_dealers, None).await {
             Ok(p) => peers.push(p),
             Err(e) => return L2::Inconclusive(e),
           }
@@ -487,7 +506,7 @@ async fn big_body(c: &BigCase) -> L2 {
   if rtype == "SUB" {
     let _ = receiver.set_option_raw(opt::SUBSCRIBE, b"").await;
   }
-  let p = match connect_peer(&ctx, &c.sender, &ep, 1, c.transport, false).await {
+  let p = match connect_peer(&ctx, &c.sender, &ep, 1, c.transport, false, None).await {
     Ok(p) => p,
     Err(e) => return L2::Inconclusive(e),
   };
